@@ -738,6 +738,15 @@ Section E2EV.
     split; [pose proof (tick_frames_app_le a b); lia|]. intros slot. specialize (H5 slot). rewrite regs_of_app, Hr in H5. lia.
   Qed.
 
+  (* a slot-independent way to establish the scope *)
+  Lemma scope_by_bound script :
+    script_okm script = true -> script_vals script = true -> no_tick0 script = true -> tick_frames script < 2 ^ 31 ->
+    regs_all init script < 2 ^ 16 -> script_scope script.
+  Proof.
+    intros H1 H2 H3 H4 H5. split; [exact H1|]. split; [exact H2|]. split; [exact H3|]. split; [exact H4|].
+    intros slot. eapply N.le_lt_trans; [apply regs_of_le_all|exact H5].
+  Qed.
+
   Theorem v_run script : forall y, script_scope script -> run init script = Ok y -> v_inv script y.
   Proof.
     induction script as [|st t IH] using rev_ind; intros y Hsc H.
